@@ -58,6 +58,21 @@ def _sym_resolver(mapping):
     return res
 
 
+def _namedtuple_fields(repo, rel, name):
+    """field names of ``name = collections.namedtuple("..", [...])`` at
+    module level of `rel`, else None"""
+    v = repo.module_assign(rel, name, missing_ok=True) if name else None
+    if isinstance(v, ast.Call) and (call_name(v) or "").split(".")[-1] == \
+            "namedtuple" and len(v.args) >= 2:
+        f = v.args[1]
+        if isinstance(f, (ast.List, ast.Tuple)) and all(
+                const_str(x) for x in f.elts):
+            return [const_str(x) for x in f.elts]
+        if const_str(f):
+            return const_str(f).replace(",", " ").split()
+    return None
+
+
 def _same(a, b):
     try:
         return a.same(b)
@@ -95,7 +110,33 @@ def r191(ctx, repo):
         if isinstance(e, ast.Name):
             d = _sole_assign(gc, e.id)
             if len(d) == 1:
-                return d[0].value
+                return value_of(d[0].value) if isinstance(
+                    d[0].value, (ast.Name, ast.Attribute)) else d[0].value
+        if isinstance(e, ast.Attribute) and isinstance(e.value, ast.Name):
+            # field of a module-level namedtuple built from a local
+            d = _sole_assign(gc, e.value.id)
+            if len(d) == 1 and isinstance(d[0].value, ast.Call) \
+                    and isinstance(d[0].value.func, ast.Name):
+                fields = _namedtuple_fields(repo, HU, d[0].value.func.id)
+                if fields and e.attr in fields:
+                    i = fields.index(e.attr)
+                    c_ = d[0].value
+                    if i < len(c_.args):
+                        return value_of(c_.args[i])
+                    for kw in c_.keywords:
+                        if kw.arg == e.attr:
+                            return value_of(kw.value)
+        if isinstance(e, ast.Subscript) and isinstance(e.value, ast.Name) \
+                and isinstance(e.slice, ast.Constant) and isinstance(
+                    e.slice.value, int):
+            d = _sole_assign(gc, e.value.id)
+            if len(d) == 1 and isinstance(d[0].value, (ast.Tuple, ast.Call)):
+                els = d[0].value.elts if isinstance(
+                    d[0].value, ast.Tuple) else (
+                    d[0].value.args if _namedtuple_fields(
+                        repo, HU, getattr(d[0].value.func, "id", "")) else [])
+                if 0 <= e.slice.value < len(els):
+                    return value_of(els[e.slice.value])
         return e
     vs, ve = value_of(a_start), value_of(a_stop)
     ok = False
@@ -700,8 +741,9 @@ def r195(ctx, repo):
     base = repo.func(CORE, "RTDCBase.__init__")
     f = [n for n in walk(base) if isinstance(n, ast.Assign)
          and is_self_attr(n.targets[0], "format")]
-    ok = bool(f) and "__class__.__name__" in txt(f[0].value) and \
-        "split('_')[-1]" in txt(f[0].value)
+    fsrc = expand_locals(base, f[0].value) if f else ""
+    ok = bool(f) and "__class__.__name__" in fsrc and \
+        "split('_')" in fsrc and "[-1]" in fsrc and ".lower()" in fsrc
     ctx.ob("R19.5", ok, "format derives from the class-name suffix" if ok
            else "format derivation changed – re-confirm non-local formats",
            node=f[0] if f else base, label="format from class name")
@@ -712,6 +754,66 @@ def r195(ctx, repo):
     ctx.ob("R19.5", ok, "local basins are enabled only for format 'hdf5'"
            if ok else "local basins enabled for formats other than 'hdf5'",
            node=lb[0] if lb else h5, label="local basins only hdf5")
+    # the restriction concerns basins of type "file" only: a remote
+    # dataset still follows its internal and remote basins (what the same
+    # bytes expose when opened locally)
+    br = repo.func(CORE, "RTDCBase.basins_retrieve")
+    guards = [n for n in walk(br) if isinstance(n, ast.If)
+              and "_local_basins_allowed" in txt(n.test)]
+    if not guards:
+        raise AnalysisError("basins_retrieve: _local_basins_allowed test "
+                            "lost")
+
+    def type_sets(test):
+        """sets of basin types a test restricts to ('type' == const / in
+        literal table), None if it does not restrict the type"""
+        out = []
+        for c in ast.walk(test):
+            if not (isinstance(c, ast.Compare) and len(c.ops) == 1):
+                continue
+            left = expand_locals(br, c.left)
+            if "type" in left and "[" in left and "basin_type" not in left:
+                rhs = c.comparators[0]
+                if isinstance(c.ops[0], ast.Eq) and const_str(rhs):
+                    out.append({const_str(rhs)})
+                elif isinstance(c.ops[0], ast.In):
+                    lit = rhs
+                    if isinstance(rhs, (ast.Name, ast.Attribute)):
+                        nm = rhs.id if isinstance(rhs, ast.Name) else rhs.attr
+                        lit = None
+                        for rel_ in (CORE,
+                                     "dclab/rtdc_dataset/feat_basin.py"):
+                            v = repo.module_assign(rel_, nm, missing_ok=True)
+                            if v is not None:
+                                lit = v
+                    if isinstance(lit, (ast.List, ast.Tuple, ast.Set)) and \
+                            all(const_str(e) for e in lit.elts):
+                        out.append({const_str(e) for e in lit.elts})
+                    else:
+                        raise AnalysisError(
+                            "basins_retrieve: basin-type table "
+                            f"`{short(rhs, 30)}` cannot be folded")
+        return out
+    for g in guards:
+        sets = type_sets(g.test)
+        n_ = g.parent
+        while n_ is not None and n_ is not br:
+            if isinstance(n_, ast.If) and any(
+                    x is g or any(y is g for y in ast.walk(x))
+                    for x in n_.body):
+                sets += type_sets(n_.test)
+            n_ = getattr(n_, "parent", None)
+        if not sets:
+            raise AnalysisError("basins_retrieve: the _local_basins_allowed "
+                                "test is not tied to a basin type")
+        types = set.intersection(*sets)
+        ok = types <= {"file"}
+        ctx.ob("R19.5", ok, "only basins of type 'file' are refused for "
+               "non-local formats" if ok else
+               f"basins of type {sorted(types - {'file'})} are refused for "
+               f"remote formats as well: a dataset opened over HTTP/S3 loses "
+               f"features the same file exposes when opened locally",
+               node=g, label="local restriction = file basins only")
 
 
 def r196(ctx, repo):
@@ -924,6 +1026,14 @@ def run(ctx):
 
 
 MUTANTS = [
+    ("internal basins refused for remote formats (seeded C19_9)", CORE,
+     ("            elif bdict[\"type\"] == \"file\":\n"
+      "                if not self._local_basins_allowed:",
+      "            elif bdict[\"type\"] in (\"file\", \"internal\") and "
+      "not self._local_basins_allowed:\n"
+      "                continue\n"
+      "            elif bdict[\"type\"] == \"file\":\n"
+      "                if not self._local_basins_allowed:"), "R19.5"),
     ("redirect target pinned as url (seeded C19_7)", HU,
      ('            self._len = int(resp.headers["content-length"])\n',
       '            self._len = int(resp.headers["content-length"])\n'
